@@ -1351,6 +1351,13 @@ async fn run_gate_scenario(ctx: &mut Ctx, rng: &mut Rng, sc: &Scenario, keys: &K
         jstr(&format!("{:?}", class)), work_from_invalid
     );
     // ---- direct oracle
+    if accepted && total_work < needed {
+        ctx.summary.oracle_failure(
+            case,
+            &format!("block accepted with routing work {} below the requirement {} = parent burn fee {} / elapsed {} rounded to the nearest nolan (heartbeat {}; the implementation asked for {})", total_work, needed, b2.burnfee, ts3 as i128 - ts2 as i128, sc.hb, needed_impl),
+            &desc,
+        );
+    }
     if let Some(r) = needed_ref {
         if r != needed_impl {
             ctx.summary.oracle_failure(
@@ -1363,13 +1370,6 @@ async fn run_gate_scenario(ctx: &mut Ctx, rng: &mut Rng, sc: &Scenario, keys: &K
             let el = (ts3 as i128 - ts2 as i128).max(1) as u64;
             if ts3 <= ts2 || el >= 2 * sc.hb { "n/a".to_string() } else if 2 * (b2.burnfee % el) >= el { ">=.5".to_string() } else { "<.5".to_string() }
         });
-    }
-    if accepted && total_work < needed {
-        ctx.summary.oracle_failure(
-            case,
-            &format!("block accepted with routing work {} below the requirement {} (burnfee {}, elapsed {}, heartbeat {})", total_work, needed, b2.burnfee, ts3 as i128 - ts2 as i128, sc.hb),
-            &desc,
-        );
     }
     if accepted && total_work.saturating_sub(work_from_invalid) < needed {
         // the requirement is met only thanks to paths that are not cryptographically valid / are self-hops
